@@ -118,6 +118,11 @@ Step(e) ==
       IF e.skip = 1 THEN [w |-> WithLens(w, e), bad |-> Observe(w, e)]
       ELSE [w |-> WithLens(w, e),
             bad |-> When(e.panic = "", {<<"C04", "a backfill of the wrong size did not panic">>}) \cup Observe(w, e)]
+  ELSE IF e.ev = "bad_pop" THEN
+      \* pop_front with an empty stable prefix: documented to panic, and nothing may be removed
+      [w |-> WithLens(w, e),
+       bad |-> When(e.panic = "", {<<"C03", "pop_front removed a slice although nothing was consumable (it is documented to panic)">>,
+                                   <<"C04", "pop_front consumed a slice that holds a pending placeholder">>}) \cup Observe(w, e)]
   ELSE IF e.panic # "" THEN
       \* C03 quantifies over every sequence of producer and consumer operations: a panic on a valid one breaks it,
       \* whatever else it breaks
